@@ -13,6 +13,7 @@ package props
 
 import (
 	"bytes"
+	sdkmath "cosmossdk.io/math"
 	"encoding/hex"
 	"encoding/json"
 	"fmt"
@@ -71,7 +72,7 @@ func genC18(t *rapid.T) c18Case {
 		}
 		cs.Blocks = append(cs.Blocks, bp)
 	}
-	kinds := []string{"deploy20", "approve", "approve", "proof", "proof"}
+	kinds := []string{"deploy20", "approve", "approve", "proof", "proof", "sendcpc", "sendcpc"}
 	for n := rapid.IntRange(0, 5).Draw(t, "nextras"); n > 0; n-- {
 		cs.Extras = append(cs.Extras, c18Extra{Kind: rapid.SampledFrom(kinds).Draw(t, "xkind"), Signer: rapid.IntRange(0, 3).Draw(t, "xsigner"),
 			Token: rapid.IntRange(0, 1).Draw(t, "xtoken"), Spender: rapid.IntRange(0, 3).Draw(t, "xspender"),
@@ -222,6 +223,12 @@ func runC18(cs c18Case) *Outcome {
 			target := chain.ExtraKey(x.Target)
 			msg := &vauthtypes.MsgSubmitProofExternalOwnedAccount{Submitter: chain.K(x.Signer).Acc().String(), Account: target.Acc().String(), Signature: c16Signature(target, "valid")}
 			bz, err = chain.CosmosTx{Signer: x.Signer, Msgs: []sdk.Msg{msg}, Gas: 500000, FeeAmount: new(big.Int).Mul(price, big.NewInt(500000)).String()}.Build(a.TxCfg, a.World.CID(), accNum, seq)
+		case "sendcpc":
+			// somebody pays a precompile address with a plain bank send: an x/auth account comes to exist at an address the
+			// cpc module re-deploys a fixed-address contract at on import
+			to := []common.Address{stakingCpcAddr(), bech32CpcAddr(), erc20NativeAddr(), erc20FooAddr()}[x.Target%4]
+			msg := bankSend(chain.K(x.Signer).Acc(), sdk.AccAddress(to.Bytes()), sdk.NewCoins(sdk.NewCoin(chain.Denom, sdkmath.NewInt(int64(1+x.Amt%100000)))))
+			bz, err = chain.CosmosTx{Signer: x.Signer, Msgs: []sdk.Msg{msg}, Gas: 300000, FeeAmount: new(big.Int).Mul(price, big.NewInt(300000)).String()}.Build(a.TxCfg, a.World.CID(), accNum, seq)
 		case "approve":
 			taddr, denom := c10Token(x.Token)
 			if got := a.App.CPCKeeper.GetErc20CustomPrecompiledContractAddressByMinDenom(ctx, denom); got == nil {
